@@ -10,7 +10,8 @@ def components():
 
 
 def oracles_():
-    return [comps_iff.IffDenote(), comps_restrict.RestrictRfc(), comps_flatten.FlattenEquiv(), comps_flatten.LoadOrder()]
+    return [comps_iff.IffDenote(), comps_restrict.RestrictRfc(), comps_flatten.FlattenEquiv(), comps_flatten.LoadOrder(),
+            comps_flatten.HistoryIndep()]
 
 
 MANIFEST = {
@@ -39,14 +40,24 @@ MANIFEST = {
             "deviations, if-feature expressions, when; hand-flattened twin written by a Python flattener from RFC 7950; all 8 "
             "feature assignments: equal LYS_OUT_YANG_COMPILED prints, schema-node sets equal to the Python if-feature "
             "denotation, equal verdicts on valid and single-mutation instance documents) and oracle load-order (all load "
-            "orders, implemented-later, explicit compile, parse from text); oracle restrict-rfc compares the library with an "
+            "orders, implemented-later, explicit compile, parse from text); oracle history-indep (module families with "
+            "dependency chains THROUGH modules without data nodes - augment-only, grouping-only, identity-only, feature-only, "
+            "deviation-only, typedef-only - and if-feature / when / leafref / identityref / default references crossing "
+            "modules: module list, compiled prints of every module, schema-node sets, lys_find_path probes and data verdicts "
+            "must be the same after every history that ends in the same implemented set and feature states: load orders, "
+            "features at load time or changed later by lys_set_implemented (on, off, on-then-off), explicit compile with one "
+            "or several ly_ctx_compile(), failed operations in between); oracle restrict-rfc compares the library with an "
             "independent Python reading of RFC 7950 9.2.4.",
     "note": "Modelled in Coq: lys_compile_iffeature, lysc_iffeature_value; lys_compile_type_range, range_part_minmax, "
             "range_part_check_value_syntax, range_part_check_ascendancy, the hand-down of the base restriction in "
             "lys_compile_type, lyplg_type_validate_range (ly_parse_int / ly_parse_uint from slice types). NOT modelled in Coq: "
             "the expansion of typedef / grouping / uses / refine / augment / submodule / deviation (lys_compile_node*, "
             "schema_compile_amend.c), pattern restrictions, enum / bits restrictions, load order - these are covered by "
-            "search only (comps_flatten.py). In the compiled prints compared by flatten-equiv the when statements are removed "
+            "search only (comps_flatten.py); in particular the dependency sets of lys_unres_dep_sets_create (which modules are "
+            "recompiled when a feature changes) have no Coq model - history independence is oracle-level. In history-indep a "
+            "module whose default refers to an identity is loaded after the module of the identity (libyang takes identities "
+            "of implemented modules only, by design), and with LY_CTX_EXPLICIT_COMPILE a failing call only comes when nothing "
+            "is pending (the revert of pending work is listed under C09: ctx-explicit-revert-pending). In the compiled prints compared by flatten-equiv the when statements are removed "
             "(the flattened twin re-roots the XPath; its meaning is compared on instance documents) and the order among "
             "children added by the augments of nested uses follows libyang (RFC 7950 does not fix it). The three defects the "
             "search found (nested refine: inner won; leaf-list min-elements kept a typedef default; NULL dereference in "
